@@ -152,3 +152,83 @@ Proof.
   intro H. rewrite iter_inc_int; [|intros; lia|cbn; lia]. cbn [bind].
   rewrite iter_inc_int; [|intros; lia|cbn; lia]. do 3 f_equal. lia.
 Qed.
+
+(** * C11: a poetic literal without a period and with at most 15 digits denotes exactly its integer *)
+From RRSS Require Import Front.Ast Front.Poetic Proofs.PoeticLaws.
+Import ListNotations.
+
+Lemma fadd_negzero y : fadd fnegzero y = y.
+Proof. destruct y as [[|]|[|]| |s m e]; reflexivity. Qed.
+
+(** digit times power of ten, for every digit and every exponent below 15: by evaluation *)
+Definition digit_exps : list (N * Z) :=
+  flat_map (fun e => map (fun d => (d, e)) [0; 1; 2; 3; 4; 5; 6; 7; 8; 9]%N) [0; 1; 2; 3; 4; 5; 6; 7; 8; 9; 10; 11; 12; 13; 14]%Z.
+
+Lemma term_table :
+  map (fun p => fmul (f_of_N (fst p)) (fpowi (f_of_Z 10) (snd p))) digit_exps =
+  map (fun p => f_of_Z (Z.of_N (fst p) * 10 ^ snd p)) digit_exps.
+Proof. vm_compute. reflexivity. Qed.
+
+Lemma map_eq_in' {A B} (f g : A -> B) l x : map f l = map g l -> In x l -> f x = g x.
+Proof. induction l as [|y t IH]; cbn; [contradiction|]. intros H [->|Hin]; injection H; auto. Qed.
+
+Lemma term_exact d e : (d < 10)%N -> (0 <= e <= 14)%Z ->
+  fmul (f_of_N d) (fpowi (f_of_Z 10) e) = f_of_Z (Z.of_N d * 10 ^ e).
+Proof.
+  intros Hd He. apply (map_eq_in' _ _ digit_exps (d, e) term_table).
+  unfold digit_exps. apply in_flat_map. exists e. split.
+  - assert (H : (e = 0 \/ e = 1 \/ e = 2 \/ e = 3 \/ e = 4 \/ e = 5 \/ e = 6 \/ e = 7 \/ e = 8 \/ e = 9 \/ e = 10 \/ e = 11 \/
+                e = 12 \/ e = 13 \/ e = 14)%Z) by lia.
+    cbn. intuition.
+  - apply in_map_iff. exists d. split; auto.
+    assert (H : (d = 0 \/ d = 1 \/ d = 2 \/ d = 3 \/ d = 4 \/ d = 5 \/ d = 6 \/ d = 7 \/ d = 8 \/ d = 9)%N) by lia.
+    cbn. intuition.
+Qed.
+
+Definition sum_terms_f := sum_terms (T := f64) f_of_N fmul fadd (fun n => fpowi (f_of_Z 10) n).
+
+Lemma sum_terms_f_exact ds : forall A,
+  Forall (fun d => (d < 10)%N) ds -> (length ds <= 15)%nat ->
+  (0 <= A)%Z -> (A + 10 ^ Z.of_nat (length ds) <= 10 ^ 15)%Z ->
+  sum_terms_f ds (Z.of_nat (length ds) - 1) (f_of_Z A) = f_of_Z (sum_terms_Z ds (Z.of_nat (length ds) - 1) A).
+Proof.
+  induction ds as [|d t IH]; intros A Hd Hl HA Hb; [reflexivity|].
+  inversion Hd as [|? ? Hd1 Hd2]; subst. cbn [length] in *.
+  unfold sum_terms_f, sum_terms_Z in *. cbn [sum_terms].
+  replace (Z.of_nat (S (length t)) - 1)%Z with (Z.of_nat (length t)) by lia.
+  assert (He : (0 <= Z.of_nat (length t) <= 14)%Z) by lia.
+  rewrite (term_exact d _ Hd1 He).
+  assert (Hp : (0 < 10 ^ Z.of_nat (length t))%Z) by (apply Z.pow_pos_nonneg; lia).
+  assert (Hs : (10 ^ Z.of_nat (S (length t)) = 10 * 10 ^ Z.of_nat (length t))%Z) by (rewrite Nat2Z.inj_succ, Z.pow_succ_r; lia).
+  assert (H15 : (10 ^ 15 < 2 ^ 53)%Z) by (vm_compute; reflexivity).
+  assert (Hterm : (0 <= Z.of_N d * 10 ^ Z.of_nat (length t) <= 9 * 10 ^ Z.of_nat (length t))%Z) by nia.
+  rewrite fadd_int; try lia.
+  specialize (IH (A + Z.of_N d * 10 ^ Z.of_nat (length t))%Z Hd2 ltac:(lia) ltac:(lia) ltac:(lia)).
+  replace (Z.of_nat (length t) - 1 + 1 - 1)%Z with (Z.of_nat (length t) - 1)%Z by lia.
+  exact IH.
+Qed.
+
+(** the f64 value of an integer poetic literal of up to 15 digits is exactly that integer *)
+Theorem poetic_integer_exact elems :
+  poetic_int_digits elems = Z.of_nat (length (poetic_digits elems)) ->
+  (1 <= length (poetic_digits elems) <= 15)%nat ->
+  compute_value elems = f_of_Z (number (poetic_digits elems)).
+Proof.
+  intros Hint Hlen. unfold compute_value, compute_value_gen. rewrite Hint.
+  set (ds := poetic_digits elems) in *.
+  assert (Hd : Forall (fun d => (d < 10)%N) ds).
+  { unfold ds, poetic_digits. apply Forall_forall. intros x Hx. apply in_map_iff in Hx as (i & <- & _). apply N.mod_lt. discriminate. }
+  destruct ds as [|d t] eqn:Eds; [cbn in Hlen; lia|].
+  inversion Hd as [|? ? Hd1 Hd2]; subst. cbn [length] in *.
+  cbn [sum_terms]. replace (Z.of_nat (S (length t)) - 1)%Z with (Z.of_nat (length t)) by lia.
+  rewrite (term_exact d _ Hd1) by lia. rewrite fadd_negzero.
+  assert (Hp : (0 < 10 ^ Z.of_nat (length t))%Z) by (apply Z.pow_pos_nonneg; lia).
+  pose proof (sum_terms_f_exact t (Z.of_N d * 10 ^ Z.of_nat (length t))%Z Hd2 ltac:(lia) ltac:(nia)) as E.
+  unfold sum_terms_f in E. replace (Z.of_nat (length t) - 1)%Z with (Z.of_nat (length t) - 1)%Z in E by lia.
+  rewrite E.
+  - f_equal. rewrite sum_terms_Z_spec. unfold number at 2. cbn [number_from fold_left].
+    fold (number_from (10 * 0 + Z.of_N d) t). rewrite number_from_split. lia.
+  - assert (Hs : (10 ^ Z.of_nat (S (length t)) = 10 * 10 ^ Z.of_nat (length t))%Z) by (rewrite Nat2Z.inj_succ, Z.pow_succ_r; lia).
+    assert (Hle : (10 ^ Z.of_nat (S (length t)) <= 10 ^ 15)%Z) by (apply Z.pow_le_mono_r; lia).
+    assert (Hd9 : (Z.of_N d <= 9)%Z) by lia. nia.
+Qed.
